@@ -5,7 +5,7 @@
    stands: C50_load_dump_refuted and the per-cause witnesses below.  What holds is the guarded round trip. *)
 From Coq Require Import List NArith ZArith Bool.
 Import ListNotations.
-From GMS Require Import Codec.Outfile Codec.OutfileProofs.
+From GMS Require Import Codec.Outfile Codec.OutfileProofs Codec.C50Fmt.
 Open Scope N_scope.
 
 (* the round trip, for every option record meeting wf_opts (non-empty terminators, enclosure/escape of at most one
@@ -19,6 +19,13 @@ Theorem C50_load_dump_id_guarded : forall o, wf_opts o = true -> forall tys rows
   load o tys (dump o tys rows) = Loaded rows.
 Proof. exact load_dump_id_guarded. Qed.
 Print Assumptions C50_load_dump_id_guarded.
+
+(* LOAD DATA ... IGNORE n LINES: the first n exported rows are dropped and exactly the others come back *)
+Theorem C50_load_ignore_dump_guarded : forall o, wf_opts o = true -> forall n tys rows,
+  Forall (fun r => row_ok o tys r = true) rows ->
+  load_ignore n o tys (dump o tys rows) = Loaded (skipn n rows).
+Proof. exact load_ignore_dump_guarded. Qed.
+Print Assumptions C50_load_ignore_dump_guarded.
 
 (* the same with the guard on strings only: when no delimiter byte is a digit or the minus sign, every BIGINT
    value is harmless and only the TEXT values are constrained *)
@@ -71,6 +78,22 @@ Theorem C50_line_terminator_in_value_refuted :
   = Loaded [[VStr [97; 92]; VNull]; [VStr [98]; VStr [99]]].
 Proof. exact refuted_line_terminator. Qed.
 Print Assumptions C50_line_terminator_in_value_refuted.
+
+(* other column types: the writer prints every non-string value with %v.  A DATE leaves in Go's time layout (the
+   engine's own date parser accepts that layout, so dates do round-trip: an observation, not a refutation) and a BLOB as a
+   Go slice (refuted: it comes back as that text) (Codec/C50Fmt.v models %v for DECIMAL,
+   DATE, DATETIME and BLOB; the conversion back into those column types is not modelled) *)
+Theorem C50_date_export_layout :
+  load dflt_o [TText] (dump dflt_o [TOther false] [[to_val_x (XDate 2024 2 29)]])
+    = Loaded [[VStr [50;48;50;52;45;48;50;45;50;57;32;48;48;58;48;48;58;48;48;32;43;48;48;48;48;32;85;84;67]]]
+  /\ sql_date 2024 2 29 = [50;48;50;52;45;48;50;45;50;57].
+Proof. exact date_export_layout. Qed.
+Print Assumptions C50_date_export_layout.
+
+Theorem C50_blob_export_refuted :
+  load dflt_o [TText] (dump dflt_o [TOther true] [[to_val_x (XBlob [97; 98])]]) = Loaded [[VStr [91;57;55;32;57;56;93]]].
+Proof. exact blob_export_refuted. Qed.
+Print Assumptions C50_blob_export_refuted.
 
 (* the clauses of wf_opts are forced: tables meeting the row guard that stop round-tripping once a clause is dropped *)
 Theorem C50_wf_needs_enclosure_differs_from_escape_refuted :
